@@ -157,6 +157,11 @@ class Delta:
     micro: Num                    # total microseconds
 
 
+def _is_noise(st: ast.stmt) -> bool:
+    from .rules.util import is_noise
+    return is_noise(st)
+
+
 class TimeInterp:
     """Abstract interpreter for one conversion function."""
 
@@ -191,6 +196,8 @@ class TimeInterp:
         for st in self.fi.node.body:
             if isinstance(st, ast.Expr) and isinstance(st.value, ast.Constant):
                 continue  # docstring
+            if _is_noise(st):
+                continue  # logging / assert / pass: no effect on the value
             if isinstance(st, ast.Assign) and len(st.targets) == 1 \
                     and isinstance(st.targets[0], ast.Name):
                 self.env[st.targets[0].id] = self.ev(st.value)
@@ -506,7 +513,19 @@ class TimeInterp:
         if isinstance(f, ast.Name):
             got = self.index.resolve_name(self.fi.module, f.id)
             if isinstance(got, FuncInfo) and self.depth < 4:
-                args = [self.ev(a) for a in e.args]
+                names = [p.arg for p in got.node.args.args]
+                bound: dict[str, Any] = {}
+                for nm, a in zip(names, e.args):
+                    bound[nm] = self.ev(a)
+                for k in e.keywords:
+                    if k.arg in names:
+                        bound[k.arg] = self.ev(k.value)
+                if set(bound) != set(names):
+                    raise AnalysisError(
+                        f"{self.fi.qualname}:{e.lineno}: call "
+                        f"'{unparse(e)}' does not bind every parameter of "
+                        f"{got.name}")
+                args = [bound[nm] for nm in names]
                 sub = TimeInterp(self.index, got, args, self.depth + 1)
                 out = sub.run()
                 self.trace.extend(sub.trace)
